@@ -108,6 +108,10 @@ def check_keys(rep, keys, *, want_refs=True, overrides=None, options=None, label
     S = rep.sources
     fns = S.functions(CORE)
     results = {}
+    # every key and helper of these checks is interpreted and has a reference today: an
+    # instance that can no longer be interpreted is a shortfall of the analysis, not a pass
+    rep.ceiling("interpret", 0)
+    rep.ceiling("reference", 0)
     opts = dict(TETRAD_OPTIONS)
     opts.update(options or {})
     for key in keys:
